@@ -321,6 +321,21 @@ def real(spec: Dict[str, Any], d: str) -> Dict[str, Any]:
         return {"ok": False, "cls": "config", "msg": str(exc)[:160]}
 
 
+def _cli_dry_run(spec: Dict[str, Any], d: str) -> Dict[str, Any]:
+    """`semantiva run --run-space-dry-run` on the same specification: exit code, printed plan, nothing executed."""
+    import re
+
+    from ..lib import clidrv
+
+    cfg = clidrv.config_mapping([{"p": "VMarkerSource", "params": {"marker": "marker.txt"}}], run_space=to_block(spec))
+    clidrv.write_yaml(os.path.join(d, "p.yaml"), cfg)
+    res = clidrv.run_inprocess(["run", "p.yaml", "-q", "--run-space-dry-run"], d)
+    m = re.search(r"expanded_runs:\s*(\d+)", res["stdout"])
+    preview = re.findall(r"^\s+\d+: (\{.*)$", res["stdout"], re.M)
+    return {"code": res["code"], "expanded_runs": int(m.group(1)) if m else None, "preview": preview,
+            "executed": os.path.exists(os.path.join(d, "marker.txt")), "stderr": res["stderr"][-160:]}
+
+
 def _freeze(x: Any) -> str:
     return json.dumps(x, sort_keys=True, default=repr)
 
@@ -336,6 +351,7 @@ def check_case(spec: Dict[str, Any], col: Collector, workroot: str = ".") -> Non
             write_file(f, d)
         ref = reference(spec)
         got = real(spec, d)
+        dry = _cli_dry_run(spec, d) if spec.get("entry") == "yaml" and (len(_freeze(spec)) % 7 == 0) else None
     finally:
         shutil.rmtree(d, ignore_errors=True)
     labs = ["blocks:%d" % len(spec["blocks"]), "combine:" + spec["combine"], "entry:" + spec.get("entry", "api")]
@@ -358,6 +374,17 @@ def check_case(spec: Dict[str, Any], col: Collector, workroot: str = ".") -> Non
     rep = {k: spec[k] for k in ("combine", "max_runs", "blocks", "files", "entry")}
     col.count(rep, labs, len(spec["blocks"]) >= 2 or (has_src and ("select" in labs or "rename" in labs)) or not ref["ok"])
     feats = {"entry": spec.get("entry", "api"), "combine": spec["combine"]}
+    if dry is not None:
+        col.labels["cli_dry_run_stdout"] += 1
+        if ref["ok"]:
+            want_preview = [json.dumps(r, separators=(",", ":"), default=str) for r in ref["runs"][:2]] if not ref.get("ambiguous") else None
+            if dry["code"] != 0 or dry["expanded_runs"] != len(ref["runs"]) or dry["executed"]:
+                col.add("cli_dry_run_plan", dict(feats, what="count_or_exit"), rep, dry, {"expanded_runs": len(ref["runs"]), "code": 0})
+            elif want_preview is not None and [p for p in dry["preview"][:2]] != [w if len(w) <= 60 else w[:57] + "…" for w in want_preview]:
+                col.add("cli_dry_run_plan", dict(feats, what="preview_order"), rep, dry["preview"][:2], want_preview)
+        else:
+            if dry["code"] != 3 or dry["executed"]:
+                col.add("cli_dry_run_plan", dict(feats, what="invalid_spec_not_rejected_with_3"), rep, dry, {"code": 3})
     if ref["ok"] and not got["ok"]:
         col.add("valid_spec_rejected", dict(feats, cls=got["cls"]), rep, got, {"runs": len(ref["runs"])})
     elif not ref["ok"] and got["ok"]:
@@ -495,4 +522,4 @@ def valid(case: Any) -> bool:
 def label_requirements(tier: str) -> Dict[str, Any]:
     return {"format:csv": 0.03, "format:json": 0.03, "format:yaml": 0.03, "format:ndjson": 0.03, "reject:config": 0.03,
             "reject:maxruns": 0.03, "expands": 0.2, "select": 0.05, "rename": 0.05, "entry:yaml": 0.3, "entry:api": 0.3,
-            "promptness": 4, "blocks:0": 0.015, "blocks:3": 0.05}
+            "promptness": 4, "cli_dry_run_stdout": 50, "blocks:0": 0.015, "blocks:3": 0.05}
